@@ -2,6 +2,8 @@ package interp
 
 import (
 	"fmt"
+	"os"
+	"time"
 	"sort"
 	"strings"
 
@@ -18,6 +20,7 @@ type Config struct {
 	Tier            string
 	Params          map[string]int // harness parameters (vrt.Param)
 	MaxPaths        int64
+	MaxWall         time.Duration
 	Sched           bool
 	Preempt         int
 	Race            bool
@@ -25,6 +28,8 @@ type Config struct {
 	Verbose         bool
 	Known           map[string]bool
 }
+
+var debugChoose = os.Getenv("SYMGO_DEBUG_CHOOSE") != ""
 
 type decKind uint8
 
@@ -400,6 +405,9 @@ func (in *Interp) choose(n int, label string) int {
 		in.pushFork(decision{dChoose, uint64(i)}, copyModel(p.model))
 	}
 	p.trace = append(p.trace, decision{dChoose, 0})
+	if debugChoose {
+		fmt.Printf("choose %s n=%d at decision %d\n", label, n, len(p.trace))
+	}
 	return 0
 }
 
